@@ -164,10 +164,10 @@ def build(pp, prog, use_hook=None) -> Built:
             e = ref(a[0])
             kw = dict(a[2]) if len(a) > 2 else {}
             n0 = len(e.parseAction)
-            val = bool(a[1])
-            e.add_condition((lambda s, l, t: True) if val else (lambda s, l, t: False), fatal=kw.get("fatal", False))
-            for w in e.parseAction[n0:]:
-                b.act_tags[id(w)] = ["condTrue"] if val else ["condFalse", bool(kw.get("fatal", False))]
+            vals = [bool(x) for x in a[1]] if isinstance(a[1], list) else [bool(a[1])]   # several functions in ONE call
+            e.add_condition(*[((lambda s, l, t: True) if v_ else (lambda s, l, t: False)) for v_ in vals], fatal=kw.get("fatal", False))
+            for w, v_ in zip(e.parseAction[n0:], vals):
+                b.act_tags[id(w)] = ["condTrue"] if v_ else ["condFalse", bool(kw.get("fatal", False))]
                 b._keep.append(w)
             continue
         elif op == "cond_len":      # oracle-only: a condition that LOOKS at the tokens (not in the model's action library)
